@@ -219,11 +219,11 @@ var reSchemaStmt = regexp.MustCompile(`(?i)^\s*(CREATE|DROP|ALTER)\s+(SCHEMA|DAT
 // c16Marker runs one marker case on a real planner and monitors every statement.
 func c16Marker(e *Env, c c16Case) {
 	r := hx.NewRand(c.Seed, "c16")
-	q := ownQuote[c.Dialect]
+	q := ownQuote[map[string]string{"tidb": "mysql"}[c.Dialect]+map[string]string{"mysql": "mysql", "postgres": "postgres"}[c.Dialect]]
 	qb := q[0]
 	s := schema.New(markerSchema)
 	other := schema.New(otherSchema)
-	ity := map[string]string{"mysql": "int", "postgres": "integer"}[c.Dialect]
+	ity := map[string]string{"mysql": "int", "postgres": "integer", "tidb": "int"}[c.Dialect]
 	mk := func(sc *schema.Schema, name string) *schema.Table {
 		t := schema.NewTable(name).SetSchema(sc)
 		id := schema.NewIntColumn("id", ity)
@@ -311,6 +311,12 @@ func c16Marker(e *Env, c c16Case) {
 	var pl migrate.PlanApplier = mysql.DefaultPlan
 	if c.Dialect == "postgres" {
 		pl = postgres.DefaultPlan
+	}
+	if c.Dialect == "tidb" {
+		// the planner mysql.Open returns for a TiDB connection (plans every atomic change on its own)
+		if tp, _ := c17Planner("tidb"); tp != nil {
+			pl = tp
+		}
 	}
 	var popts []migrate.PlanOption
 	qp := qualPtr(c.Qual)
@@ -480,11 +486,12 @@ func runC16(e *Env) error {
 	}
 	cases := make([]c16Case, nm)
 	for i := range cases {
-		cases[i] = c16Case{Dialect: hx.Pick(r, []string{"mysql", "postgres"}), Qual: hx.Pick(r, []string{"unset", "empty", "empty", "custom", "custom"}),
+		cases[i] = c16Case{Dialect: hx.Pick(r, []string{"mysql", "postgres", "mysql", "postgres", "tidb"}), Qual: hx.Pick(r, []string{"unset", "empty", "empty", "custom", "custom"}),
 			Mode: hx.Pick(r, []int{0, 1, 2, 3, 4}), Seed: r.Uint64(), TwoSch: r.Chance(1, 6)}
 	}
 	parallel(e.Workers, len(cases), func(i int) { c16Marker(e, cases[i]) })
 	c16CLI(e)
+	c16Planner(e)
 	e.Res.Rule = fmt.Sprintf("(A) 5x5 schema-name pairs x 3 qualifiers x {Table, TableColumn, TableResource(index), SchemaResource, RefTable} of the real Builder vs the model; (B) %d random change lists (AddSchema/DropSchema/ModifySchema/Add|Modify|Drop|RenameTable/Add|Drop|ModifyObject of an enum, in 4 schema names) x qualifier x mode for CheckChangesScope vs the model; (C) %d marker cases: 1-3 change groups out of {create, drop, add column+index, drop index, add fk, drop fk, rename table, rename column, rename index, modify column, modify comment, PostgreSQL add/drop/extend of a stand-alone enum type, drop/modify of a from-state foreign key whose tables live in a differently named (dev) schema, a schema attribute change (must be refused outside in-place mode)}, PostgreSQL enums, optional second schema, x {mysql, postgres} x qualifier {unset, empty, custom} x mode {unset, in-place, deferred, dump, unsorted dump}; (D) CLI: `schema inspect` / `schema diff` with the sql template function (no / two-blank / empty / tab indentation) and the default diff output for schema-bound MySQL and PostgreSQL connections (fixture schemes of the verif build), differently named schemas with the same content, realm-bound connections; non-trivial = a qualifier was requested; distinct by the whole case", ns, nm)
 	return nil
 }
